@@ -389,15 +389,18 @@ class C11(Monitor):
             for u in UNKNOWN:
                 for lo in range(0, n, CHUNK * 16):
                     yield {"k": "unknownall", "s": "UA", "bit": u, "lo": lo, "hi": min(n, lo + CHUNK * 16)}
+        # negative words: bit 31 of a C int co_flags shows up as a negative Python int
+        yield {"k": "negative", "s": "NEG", "maxk": 2}
         # (iii) header alterations of a family of base code objects
         for name, src, path in BASE_SOURCES:
             yield {"k": "hdrflags", "s": "HF", "base": name}
             yield {"k": "hdrcounts", "s": "HC", "base": name}
             yield {"k": "hdrnames", "s": "HN", "base": name}
+            yield {"k": "hdrnested", "s": "HX", "base": name}
 
     def predicted(self):
         n = 1 << len(K)
-        tot = (n + CHUNK - 1) // CHUNK + len(UNKNOWN) + 3 * len(BASE_SOURCES)
+        tot = (n + CHUNK - 1) // CHUNK + len(UNKNOWN) + 1 + 4 * len(BASE_SOURCES)
         if self.tier == "thorough":
             tot += len(UNKNOWN) * ((n + CHUNK * 16 - 1) // (CHUNK * 16))
         return tot
@@ -406,8 +409,10 @@ class C11(Monitor):
         k = case["k"]
         if k in ("flagwords", "unknownall"):
             self.in_child(case, stats)
-        elif k == "unknown":
+        elif k in ("unknown", "negative"):
             self.run_words(case, stats)
+        elif k == "hdrnested":
+            self.hdr_nested(case, stats)
         elif k == "hdrflags":
             self.hdr_flags(case, stats)
         elif k == "hdrcounts":
@@ -436,6 +441,12 @@ class C11(Monitor):
                 yield word_of(m) | case["bit"], False
         elif case["k"] == "word":
             yield case["word"], case["known"]
+        elif case["k"] == "negative":
+            yield -1, False
+            yield -2, False
+            for m in small_subsets(len(K), case["maxk"]):
+                yield word_of(m) - (1 << 31), False
+                yield word_of(m) - (1 << 32) if word_of(m) else -(1 << 32), False
 
     def in_child(self, case, stats):
         """enum (3.7/3.8) caches a pseudo-member per composite word and scans that
@@ -472,8 +483,8 @@ class C11(Monitor):
 
         for word, known in self.words(case):
             stats.evaluations += 1
-            if case["k"] == "unknown":
-                stats.nontrivial.add(word | (1 << 40))
+            if case["k"] in ("unknown", "negative"):
+                stats.nontrivial.add((word & ((1 << 40) - 1)) | (1 << 41 if word < 0 else 1 << 40))
             wcase = {"k": "word", "s": case["s"], "word": word, "known": known}
             try:
                 names = to_flags_data(word)
@@ -562,6 +573,39 @@ class C11(Monitor):
                 continue
             stats.nontrivial.add(digest64(("hf", case["base"], x)))
             self.judge(dict(case, xor=x), alt, stats, "%s with co_flags 0x%x (compiler: 0x%x)" % (case["base"], fl, base.co_flags))
+
+    def hdr_nested(self, case, stats):
+        """Header fields of a *nested* code object that code.__eq__ ignores (file name,
+        stack size, line table) altered by hand; the parent is converted right after the
+        unaltered parent in the same process."""
+        name = case["base"]
+        src, path = [(s_, p_) for n_, s_, p_ in BASE_SOURCES if n_ == name][0]
+        if not path:
+            stats.outcomes["no-parent"] += 1
+            return
+        root = compile(src, "<verif>", "exec", dont_inherit=True)
+        chain = [root]
+        for i in path:
+            chain.append(chain[-1].co_consts[_nth_code(chain[-1], i)])
+        inner = chain[-1]
+        self.judge(dict(case, alt="unaltered"), root, stats, "%s: unaltered parent" % name)
+        alts = [
+            ("co_stacksize", {"co_stacksize": inner.co_stacksize + 5}),
+            ("co_filename", {"co_filename": "<other-file>"}),
+            ("line-table", {"co_lnotab" if PY < (3, 10) else "co_linetable": b""}),
+        ]
+        only = case.get("nalt")
+        for label, kw in alts:
+            if only is not None and label != only:
+                continue
+            new = ref.code_replace(inner, **kw)
+            # substitute up the chain
+            cur = new
+            for parent, old_child in zip(reversed(chain[:-1]), reversed(chain[1:])):
+                consts = tuple(cur if k is old_child else k for k in parent.co_consts)
+                cur = ref.code_replace(parent, co_consts=consts)
+            stats.nontrivial.add(digest64(("hx", name, label)))
+            self.judge(dict(case, nalt=label), cur, stats, "%s: nested code object with %s altered" % (name, label))
 
     def hdr_names(self, case, stats):
         """Unusual but legal strings in the name-carrying header fields: each variable
